@@ -17,6 +17,7 @@
 #include <new>
 #include <pthread.h>
 #include <sched.h>
+#include <setjmp.h>
 #include <set>
 #include <signal.h>
 #include <string>
@@ -34,7 +35,7 @@
 #define NACC (1 << 18)
 #define ARENA_SIZE (64u << 20)
 
-enum Result { RES_OK = 0, RES_CHECK = 1, RES_INVARIANT = 2, RES_DEADLOCK = 3, RES_LIVELOCK = 4, RES_DIVERGED = 5, RES_INTERNAL = 6 };
+enum Result { RES_OK = 0, RES_CHECK = 1, RES_INVARIANT = 2, RES_DEADLOCK = 3, RES_LIVELOCK = 4, RES_DIVERGED = 5, RES_INTERNAL = 6, RES_SLEEPBLOCKED = 7 };
 static const char* result_name(int r) {
     switch (r) {
         case RES_OK: return "ok";
@@ -53,6 +54,7 @@ struct Shared {
     int prefix_len;
     int forced;
     int use_dpoints;
+    int use_sleep;      // partial-order reduction, no preemption bound: 1 = sleep sets, 2 = DPOR (backtrack sets from races) + sleep sets
     long horizon;
     unsigned char prefix[MAXP];
     int running;        // 1 while an execution is in flight
@@ -62,6 +64,9 @@ struct Shared {
     unsigned char chosen[MAXP];
     unsigned char cur_enabled[MAXP];
     unsigned char chosen_tid[MAXP];
+    unsigned char en_mask[MAXP];     // partial-order modes: enabled threads / sleep set at each decision position,
+    unsigned char z_mask[MAXP];
+    unsigned char done_mask[MAXP];   // and (input) the threads already explored at the prefix positions
     long points;
     unsigned long long outcome_hash;
     char obs[OBSCAP];
@@ -70,11 +75,13 @@ struct Shared {
     uintptr_t Dnew[NCONF];
     int d_count, dnew_count;
     // progress of the exploration
-    long executions, transitions, decisions, nodes;
+    long executions, transitions, decisions, nodes, blocked;
     int bound_completed, bound_running, passes, capped, finished;
     int distinct_outcomes;
+    unsigned long long outcomes_sum;   // sum of the hashes of the distinct outcomes (set fingerprint, for differential runs)
     int nsamples;
     char samples[3][1024];
+    int had_invariant;   // the last execution registered a step invariant (it reads global state after every transition)
     int violation;       // 1: the last execution violated (kind in vkind)
     char vkind[128];
 };
@@ -157,7 +164,15 @@ struct VThread {
     int notes_len;
     char* stack_lo;
     char* stack_hi;
+    // the visible operation this thread performs next (declared at its scheduling point); used by the sleep sets
+    unsigned char pend_kind;
+    uintptr_t pend_addr;
+    int pend_sz;
+    bool detector;
+    bool started;     // has received the baton in the current execution
+    jmp_buf jb;
 };
+enum { PK_NONE = 0, PK_READ = 1, PK_WRITE = 2, PK_UNKNOWN = 3 };
 
 VThread T[VS_MAX_THREADS];
 alignas(4096) char g_stacks[VS_MAX_THREADS][1 << 20];
@@ -169,6 +184,13 @@ int g_pos = 0;
 int g_rescues = 0;
 int (*g_invariant)(std::string&) = nullptr;
 int g_debug = 0;
+unsigned g_Z = 0;              // sleep set (bit per thread)
+#define MAXTL (1 << 17)
+struct TLog { unsigned char tid, kind; int pos; uintptr_t addr; int sz; };
+TLog g_tl[MAXTL];              // partial-order modes: every transition of the running execution
+int g_ntl = 0;
+volatile int g_abort = 0;      // the running execution is being abandoned (sleep-set blocked)
+int g_abort_ack = 0;
 
 struct VMutex { uintptr_t addr; int owner; };
 struct VRw { uintptr_t addr; int writer; int readers; unsigned char rd[VS_MAX_THREADS]; };
@@ -263,7 +285,7 @@ void wake_spinners(uintptr_t addr) {
     for (int t = 0; t < NT; t++) {
         if (T[t].st == T_BLOCKED_SPIN) {
             for (int k = 0; k < T[t].nspin; k++)
-                if (T[t].spin_addrs[k] == addr) { T[t].st = T_RUNNABLE; break; }
+                if (T[t].spin_addrs[k] == addr) { T[t].st = T_RUNNABLE; T[t].pend_kind = PK_NONE; break; }
         }
     }
     g_rescues = 0;
@@ -279,6 +301,27 @@ void run_invariant() {
     std::string why;
     int r = g_invariant(why);
     if (r) die(RES_INVARIANT, "INVARIANT: " + why);
+}
+
+bool independent(const VThread& a, const VThread& b) {
+    if (a.pend_kind == PK_NONE || b.pend_kind == PK_NONE) return true;
+    if (a.pend_kind == PK_UNKNOWN || b.pend_kind == PK_UNKNOWN) return false;
+    bool overlap = a.pend_addr < b.pend_addr + (uintptr_t)b.pend_sz && b.pend_addr < a.pend_addr + (uintptr_t)a.pend_sz;
+    if (!overlap) return true;
+    return a.pend_kind == PK_READ && b.pend_kind == PK_READ;
+}
+
+// The running execution cannot continue (every enabled thread is in the sleep set: all its continuations are covered by
+// executions explored elsewhere).  Unwind every live virtual thread to the top of thread_main and hand control to main.
+[[noreturn]] void abandon_execution(int me) {
+    g_abort = 1;
+    for (int u = 0; u < NT; u++) {
+        if (u == me || T[u].st == T_DONE || T[u].st == T_IDLE || !T[u].started) continue;
+        wake_word(&T[u].go);
+        sleep_word(&g_abort_ack);
+    }
+    T[me].detector = true;
+    longjmp(T[me].jb, 1);
 }
 
 // Decide who runs next; called by thread `me` (or -1 = main at the start) holding the baton.
@@ -304,7 +347,7 @@ void decide(int me) {
                 // the step horizon and is reported as a livelock.
                 g_rescues++;
                 for (int t = 0; t < NT; t++)
-                    if (T[t].st == T_BLOCKED_SPIN) { T[t].st = T_RUNNABLE; if (T[t].spin_threshold < 1500) T[t].spin_threshold *= 8; }
+                    if (T[t].st == T_BLOCKED_SPIN) { T[t].st = T_RUNNABLE; T[t].pend_kind = PK_NONE; if (T[t].spin_threshold < 1500) T[t].spin_threshold *= 8; }
                 continue;
             }
             std::string w = "no enabled thread:";
@@ -317,6 +360,55 @@ void decide(int me) {
         }
         int pick = 0;
         if (me >= 0) T[me].yielded = false;
+        int next;
+        if (S->use_sleep) {
+            // partial-order modes: a decision position is a point with >= 2 enabled threads; the prefix names thread ids
+            unsigned enmask = 0;
+            for (int k = 0; k < n; k++) enmask |= 1u << opts[k];
+            int pos = -1, nt = -1;
+            unsigned done_before = 0;
+            if (n >= 2) {
+                pos = g_pos++;
+                if (pos >= MAXP) die(RES_LIVELOCK, "decision horizon");
+                S->en_mask[pos] = (unsigned char)enmask;
+                S->z_mask[pos] = (unsigned char)g_Z;
+                if (pos < S->prefix_len) {
+                    nt = S->prefix[pos];
+                    if (!(enmask & (1u << nt))) die(RES_DIVERGED, "forced thread not enabled at decision " + std::to_string(pos));
+                    done_before = S->done_mask[pos] & ~(1u << nt);
+                }
+            }
+            if (nt < 0) {
+                for (int k = 0; k < n && nt < 0; k++)
+                    if (!(g_Z & (1u << opts[k]))) nt = opts[k];
+                if (nt < 0) {
+                    if (me < 0) die(RES_INTERNAL, "sleep set not empty at the start");
+                    if (pos >= 0) g_pos--;
+                    abandon_execution(me);
+                }
+            }
+            if (pos >= 0) {
+                int idx = 0;
+                for (int k = 0; k < n; k++) if (opts[k] == nt) idx = k;
+                S->nopts[pos] = (unsigned char)n;
+                S->chosen[pos] = (unsigned char)idx;
+                S->cur_enabled[pos] = me_en ? 1 : 0;
+                S->chosen_tid[pos] = (unsigned char)nt;
+                S->trace_len = pos + 1;
+            }
+            // threads explored before `nt` at this point go to sleep; a sleeping thread wakes up when an operation that
+            // does not commute with its pending operation is executed
+            unsigned cand = g_Z | done_before;
+            unsigned nz = 0;
+            for (int u = 0; u < NT; u++)
+                if ((cand & (1u << u)) && u != nt && enabled(u) && independent(T[u], T[nt])) nz |= 1u << u;
+            g_Z = nz;
+            if (g_ntl < MAXTL) {
+                TLog& e = g_tl[g_ntl++];
+                e.tid = (unsigned char)nt; e.kind = T[nt].pend_kind; e.addr = T[nt].pend_addr; e.sz = T[nt].pend_sz; e.pos = pos;
+            } else die(RES_LIVELOCK, "transition log full");
+            next = nt;
+        } else {
         if (n >= 2) {
             int pos = g_pos++;
             if (pos >= MAXP) die(RES_LIVELOCK, "decision horizon");
@@ -339,14 +431,18 @@ void decide(int me) {
             S->trace_len = pos + 1;
             pick = c;
         }
-        int next = opts[pick];
+        next = opts[pick];
+        }
         if (g_debug) { char b[128]; int k = snprintf(b, sizeof b, "x%ld p%ld me=%d n=%d next=%d st=%d,%d\n", S->executions, g_points, me, n, next, (int)T[0].st, (int)T[1].st); (void)!write(2, b, k); }
         if (next != me) {
             // after the baton is handed over this thread must not look at shared scheduler state any more
             // (the next execution may already have been set up by the time it runs again)
             bool me_sleeps = (me >= 0 && T[me].st != T_DONE);
             wake_word(&T[next].go);
-            if (me_sleeps) sleep_word(&T[me].go);
+            if (me_sleeps) {
+                sleep_word(&T[me].go);
+                if (g_abort) longjmp(T[me].jb, 1);
+            }
         }
         return;
     }
@@ -379,8 +475,9 @@ bool spinning(VThread& t) {
 }
 
 // A scheduling point BEFORE an operation of the calling thread. Returns when it holds the baton again.
-void point() {
+void point(int kind, uintptr_t addr, int sz) {
     int me = tl_tid;
+    T[me].pend_kind = (unsigned char)kind; T[me].pend_addr = addr; T[me].pend_sz = sz;
     flush_pending(me);
     run_invariant();
     if (++g_points > S->horizon) die(RES_LIVELOCK, "step horizon exceeded");
@@ -426,7 +523,7 @@ void plain_access(void* p, int sz, bool write, bool is_volatile, void* pc) {
     //              2 = neither ("sync-only": atomics, locks and yields; a coarser but much smaller schedule space)
     bool pt = S->use_dpoints == 2 ? false : (is_volatile || (S->use_dpoints && in_D(a)));
     if (pt) {
-        point();
+        point(write ? PK_WRITE : PK_READ, a, sz);
         if (write) {
             // the store itself happens after this hook returns: wake spinners at this thread's next hook
             VThread& t = T[tl_tid];
@@ -459,7 +556,7 @@ VRw* vrw(uintptr_t a) {
 }
 void wake_waiters(uintptr_t obj) {
     for (int t = 0; t < NT; t++)
-        if (T[t].st == T_BLOCKED_MUTEX && T[t].wait_obj == obj) T[t].st = T_RUNNABLE;
+        if (T[t].st == T_BLOCKED_MUTEX && T[t].wait_obj == obj) { T[t].st = T_RUNNABLE; T[t].pend_kind = PK_NONE; }
     g_rescues = 0;
 }
 
@@ -469,8 +566,15 @@ void* thread_main(void* arg) {
     T[me].stack_lo = g_stacks[me];
     T[me].stack_hi = g_stacks[me] + sizeof g_stacks[me];
     for (;;) {
+        if (setjmp(T[me].jb)) {
+            // landed here because the execution was abandoned; touch nothing but our own words from here on
+            tl_inrt = 0;
+            if (T[me].detector) { T[me].detector = false; wake_word(&g_main_go); }
+            else wake_word(&g_abort_ack);
+        }
         if (g_debug) { char b[64]; int k = snprintf(b, sizeof b, "T%d top go=%d\n", me, T[me].go); (void)!write(2, b, k); }
         sleep_word(&T[me].go);   // wait for the baton of a new execution
+        T[me].started = true;
         if (g_debug) { char b[64]; int k = snprintf(b, sizeof b, "T%d start inrt=%d ctl=%d\n", me, tl_inrt, (int)g_controlled); (void)!write(2, b, k); }
         vs_thread(me);
         tl_inrt++;
@@ -498,6 +602,9 @@ int run_execution(int scenario) {
     g_points = 0;
     g_pos = 0;
     g_rescues = 0;
+    g_Z = 0;
+    g_ntl = 0;
+    g_abort = 0;
     g_invariant = nullptr;
     S->trace_len = 0;
     S->running = 1;
@@ -506,6 +613,7 @@ int run_execution(int scenario) {
     if (NT < 1 || NT > VS_MAX_THREADS) { fprintf(stderr, "vsched: bad thread count %d\n", NT); _exit(2); }
     for (int i = 0; i < NT; i++) {
         T[i].st = T_RUNNABLE; T[i].logn = 0; T[i].npending = 0; T[i].yielded = false; T[i].notes_len = 0; T[i].nspin = 0; T[i].spin_threshold = 3; for (int q = 0; q < 5; q++) T[i].run[q] = 0;
+        T[i].pend_kind = PK_NONE; T[i].detector = false; T[i].started = false;
         if (!T[i].created) {
             g_arena_on = 0;
             pthread_attr_t at;
@@ -521,6 +629,15 @@ int run_execution(int scenario) {
     decide(-1);
     sleep_word(&g_main_go);
     g_controlled = 0;
+    S->had_invariant = g_invariant != nullptr;
+    if (g_abort) {
+        g_abort = 0;
+        S->result = RES_SLEEPBLOCKED;
+        S->points = g_points;
+        g_arena_on = 0;
+        S->running = 0;
+        return RES_SLEEPBLOCKED;
+    }
     int r;
     {
         std::string obs;
@@ -550,10 +667,15 @@ void note(const char* fmt, ...) {
 void ghost_point() {
     if (!hooks_on()) return;
     tl_inrt++;
-    point();
+    point(PK_UNKNOWN, 0, 0);
     tl_inrt--;
 }
-void quiet_begin() { tl_inrt++; }
+void quiet_begin() {
+    // what a quiet section reads is not recorded, so its position relative to every other thread's operations matters:
+    // it starts with a scheduling point whose operation commutes with nothing
+    if (hooks_on()) { tl_inrt++; point(PK_UNKNOWN, 0, 0); tl_inrt--; }
+    tl_inrt++;
+}
 void quiet_end() { tl_inrt--; }
 int self() { return tl_tid; }
 long step() { return g_points; }
@@ -595,29 +717,29 @@ void __tsan_write_range_pc(void* a, unsigned long n, void*) { __tsan_write_range
 #define ATOMIC(BITS, TY) \
     TY __tsan_atomic##BITS##_load(const volatile TY* a, int) { \
         if (!hooks_on()) return __atomic_load_n(a, __ATOMIC_SEQ_CST); \
-        tl_inrt++; point(); TY v = __atomic_load_n(a, __ATOMIC_SEQ_CST); after_op(RA, (uintptr_t)a, (unsigned long long)v, false); tl_inrt--; return v; } \
+        tl_inrt++; point(PK_READ, (uintptr_t)a, BITS / 8); TY v = __atomic_load_n(a, __ATOMIC_SEQ_CST); after_op(RA, (uintptr_t)a, (unsigned long long)v, false); tl_inrt--; return v; } \
     void __tsan_atomic##BITS##_store(volatile TY* a, TY v, int) { \
         if (!hooks_on()) { __atomic_store_n(a, v, __ATOMIC_SEQ_CST); return; } \
-        tl_inrt++; point(); TY o = __atomic_load_n(a, __ATOMIC_SEQ_CST); __atomic_store_n(a, v, __ATOMIC_SEQ_CST); after_op(RA, (uintptr_t)a, (unsigned long long)v, o != v); tl_inrt--; } \
+        tl_inrt++; point(PK_WRITE, (uintptr_t)a, BITS / 8); TY o = __atomic_load_n(a, __ATOMIC_SEQ_CST); __atomic_store_n(a, v, __ATOMIC_SEQ_CST); after_op(RA, (uintptr_t)a, (unsigned long long)v, o != v); tl_inrt--; } \
     TY __tsan_atomic##BITS##_exchange(volatile TY* a, TY v, int) { \
         if (!hooks_on()) return __atomic_exchange_n(a, v, __ATOMIC_SEQ_CST); \
-        tl_inrt++; point(); TY o = __atomic_exchange_n(a, v, __ATOMIC_SEQ_CST); after_op(RA, (uintptr_t)a, (unsigned long long)o, o != v); tl_inrt--; return o; } \
+        tl_inrt++; point(PK_WRITE, (uintptr_t)a, BITS / 8); TY o = __atomic_exchange_n(a, v, __ATOMIC_SEQ_CST); after_op(RA, (uintptr_t)a, (unsigned long long)o, o != v); tl_inrt--; return o; } \
     int __tsan_atomic##BITS##_compare_exchange_strong(volatile TY* a, TY* e, TY d, int, int) { \
         if (!hooks_on()) return __atomic_compare_exchange_n(a, e, d, 0, __ATOMIC_SEQ_CST, __ATOMIC_SEQ_CST); \
-        tl_inrt++; point(); TY exp = *e; int ok = __atomic_compare_exchange_n(a, e, d, 0, __ATOMIC_SEQ_CST, __ATOMIC_SEQ_CST); \
+        tl_inrt++; point(PK_WRITE, (uintptr_t)a, BITS / 8); TY exp = *e; int ok = __atomic_compare_exchange_n(a, e, d, 0, __ATOMIC_SEQ_CST, __ATOMIC_SEQ_CST); \
         after_op(RA, (uintptr_t)a, (unsigned long long)*e ^ ((unsigned long long)exp << 1), ok && exp != d); tl_inrt--; return ok; } \
     int __tsan_atomic##BITS##_compare_exchange_weak(volatile TY* a, TY* e, TY d, int, int) { \
         if (!hooks_on()) return __atomic_compare_exchange_n(a, e, d, 0, __ATOMIC_SEQ_CST, __ATOMIC_SEQ_CST); \
-        tl_inrt++; point(); TY exp = *e; int ok = __atomic_compare_exchange_n(a, e, d, 0, __ATOMIC_SEQ_CST, __ATOMIC_SEQ_CST); \
+        tl_inrt++; point(PK_WRITE, (uintptr_t)a, BITS / 8); TY exp = *e; int ok = __atomic_compare_exchange_n(a, e, d, 0, __ATOMIC_SEQ_CST, __ATOMIC_SEQ_CST); \
         after_op(RA, (uintptr_t)a, (unsigned long long)*e ^ ((unsigned long long)exp << 1), ok && exp != d); tl_inrt--; return ok; } \
     TY __tsan_atomic##BITS##_compare_exchange_val(volatile TY* a, TY e, TY d, int, int) { \
         if (!hooks_on()) { __atomic_compare_exchange_n(a, &e, d, 0, __ATOMIC_SEQ_CST, __ATOMIC_SEQ_CST); return e; } \
-        tl_inrt++; point(); TY exp = e; int ok = __atomic_compare_exchange_n(a, &e, d, 0, __ATOMIC_SEQ_CST, __ATOMIC_SEQ_CST); \
+        tl_inrt++; point(PK_WRITE, (uintptr_t)a, BITS / 8); TY exp = e; int ok = __atomic_compare_exchange_n(a, &e, d, 0, __ATOMIC_SEQ_CST, __ATOMIC_SEQ_CST); \
         after_op(RA, (uintptr_t)a, (unsigned long long)e, ok && exp != d); tl_inrt--; return e; }
 #define RMW(BITS, TY, NAME, BUILTIN) \
     TY __tsan_atomic##BITS##_##NAME(volatile TY* a, TY v, int) { \
         if (!hooks_on()) return BUILTIN(a, v, __ATOMIC_SEQ_CST); \
-        tl_inrt++; point(); TY o = BUILTIN(a, v, __ATOMIC_SEQ_CST); TY n = __atomic_load_n(a, __ATOMIC_SEQ_CST); \
+        tl_inrt++; point(PK_WRITE, (uintptr_t)a, BITS / 8); TY o = BUILTIN(a, v, __ATOMIC_SEQ_CST); TY n = __atomic_load_n(a, __ATOMIC_SEQ_CST); \
         after_op(RA, (uintptr_t)a, (unsigned long long)o, o != n); tl_inrt--; return o; }
 #define ALLATOMIC(BITS, TY) ATOMIC(BITS, TY) RMW(BITS, TY, fetch_add, __atomic_fetch_add) RMW(BITS, TY, fetch_sub, __atomic_fetch_sub) \
     RMW(BITS, TY, fetch_and, __atomic_fetch_and) RMW(BITS, TY, fetch_or, __atomic_fetch_or) RMW(BITS, TY, fetch_xor, __atomic_fetch_xor) \
@@ -635,7 +757,7 @@ int pthread_mutex_lock(pthread_mutex_t* m) {
     tl_inrt++;
     VMutex* v = vmutex((uintptr_t)m);
     for (;;) {
-        point();
+        point(PK_WRITE, (uintptr_t)m, 8);
         if (v->owner == -1) { v->owner = tl_tid; break; }
         T[tl_tid].st = T_BLOCKED_MUTEX;
         T[tl_tid].wait_obj = (uintptr_t)m;
@@ -649,7 +771,7 @@ int pthread_mutex_trylock(pthread_mutex_t* m) {
     if (!hooks_on()) return 0;
     tl_inrt++;
     VMutex* v = vmutex((uintptr_t)m);
-    point();
+    point(PK_WRITE, (uintptr_t)m, 8);
     int r = EBUSY;
     if (v->owner == -1) { v->owner = tl_tid; r = 0; }
     after_op(RA, (uintptr_t)m, (unsigned long long)r, r == 0);
@@ -660,7 +782,7 @@ int pthread_mutex_unlock(pthread_mutex_t* m) {
     if (!hooks_on()) return 0;
     tl_inrt++;
     VMutex* v = vmutex((uintptr_t)m);
-    point();
+    point(PK_WRITE, (uintptr_t)m, 8);
     v->owner = -1;
     wake_waiters((uintptr_t)m);
     wake_spinners((uintptr_t)m);
@@ -674,7 +796,7 @@ static int rw_acquire(pthread_rwlock_t* l, bool write, bool try_only) {
     VRw* v = vrw((uintptr_t)l);
     int r = 0;
     for (;;) {
-        point();
+        point(PK_WRITE, (uintptr_t)l, 8);
         bool can = write ? (v->writer == -1 && v->readers == 0) : (v->writer == -1);
         if (can) {
             if (write) v->writer = tl_tid; else { v->readers++; v->rd[tl_tid]++; }
@@ -697,7 +819,7 @@ int pthread_rwlock_unlock(pthread_rwlock_t* l) {
     if (!hooks_on()) return 0;
     tl_inrt++;
     VRw* v = vrw((uintptr_t)l);
-    point();
+    point(PK_WRITE, (uintptr_t)l, 8);
     if (v->writer == tl_tid) v->writer = -1;
     else if (v->rd[tl_tid] > 0) { v->rd[tl_tid]--; v->readers--; }
     wake_waiters((uintptr_t)l);
@@ -712,6 +834,7 @@ int sched_yield(void) {
     run_invariant();
     if (++g_points > S->horizon) die(RES_LIVELOCK, "step horizon exceeded");
     T[tl_tid].yielded = true;
+    T[tl_tid].pend_kind = PK_UNKNOWN;
     decide(tl_tid);
     tl_inrt--;
     return 0;
@@ -754,13 +877,15 @@ static bool explore_bound(int scenario, int bound, long max_exec, double deadlin
         int n = S->trace_len;
         S->decisions += n;
         S->nodes += (n > (int)prefix.size() ? n - (int)prefix.size() : 0) + 1;
-        if (r != RES_OK) {
+        if (r == RES_SLEEPBLOCKED) S->blocked++;
+        else if (r != RES_OK) {
             S->violation = 1;
             snprintf(S->vkind, sizeof S->vkind, "%s", result_name(r));
             _exit(3);
         }
-        if (outcomes.insert(S->outcome_hash).second) {
+        if (r == RES_OK && outcomes.insert(S->outcome_hash).second) {
             S->distinct_outcomes = (int)outcomes.size();
+            S->outcomes_sum += S->outcome_hash;
             if (S->nsamples < 3) { strncpy(S->samples[S->nsamples], S->obs, 1023); S->samples[S->nsamples][1023] = 0; S->nsamples++; }
         }
         int cost = 0;
@@ -785,6 +910,139 @@ static bool explore_bound(int scenario, int bound, long max_exec, double deadlin
     return true;
 }
 
+// ---- partial-order reduction (no preemption bound): sleep sets (mode 1) or DPOR backtrack sets + sleep sets (mode 2)
+struct PNode { unsigned en, z, backtrack, done; int chosen; };
+
+// Races of the execution just run: for every transition j, the latest earlier transitions of other threads that do not
+// commute with it and are not ordered before it by happens-before (program order + dependence) name a decision position at
+// which running thread(j) first leads to a different partial order: add it to that position's backtrack set.
+static void process_races(std::vector<PNode>& path) {
+    struct Loc { uintptr_t key; int lastw; int lastr[VS_MAX_THREADS]; };
+    static std::vector<Loc> tab;
+    static std::vector<int> used;
+    const unsigned TABN = 1u << 16;
+    if (tab.empty()) { tab.resize(TABN); for (auto& l : tab) l.key = 0; }
+    for (int i : used) tab[i].key = 0;
+    used.clear();
+    int nt = NT, m = g_ntl;
+    typedef unsigned short Clk;
+    static std::vector<Clk> clk;       // clk[j*VS_MAX_THREADS + t]
+    clk.assign((size_t)m * VS_MAX_THREADS, 0);
+    Clk vc[VS_MAX_THREADS][VS_MAX_THREADS];
+    memset(vc, 0, sizeof vc);
+    int last_unknown[VS_MAX_THREADS], last_any[VS_MAX_THREADS];
+    for (int t = 0; t < VS_MAX_THREADS; t++) last_unknown[t] = last_any[t] = -1;
+    auto loc = [&](uintptr_t key) -> Loc& {
+        unsigned h = (unsigned)(key * 0x9E3779B97F4A7C15ULL >> 40) & (TABN - 1);
+        for (;;) {
+            Loc& l = tab[h];
+            if (l.key == key) return l;
+            if (l.key == 0) { l.key = key; l.lastw = -1; for (int t = 0; t < VS_MAX_THREADS; t++) l.lastr[t] = -1; used.push_back((int)h); return l; }
+            h = (h + 1) & (TABN - 1);
+        }
+    };
+    for (int j = 0; j < m; j++) {
+        const TLog& e = g_tl[j];
+        int p = e.tid;
+        int cands[3 * VS_MAX_THREADS + 4];
+        int nc = 0;
+        Loc* ls[4];
+        int nl = 0;
+        if (e.kind == PK_READ || e.kind == PK_WRITE) {
+            uintptr_t k0 = (e.addr >> 3) + 1, k1 = ((e.addr + (e.sz > 0 ? e.sz - 1 : 0)) >> 3) + 1;
+            for (uintptr_t k = k0; k <= k1 && nl < 4; k++) ls[nl++] = &loc(k);
+            for (int q = 0; q < nl; q++) {
+                if (ls[q]->lastw >= 0) cands[nc++] = ls[q]->lastw;
+                if (e.kind == PK_WRITE)
+                    for (int t = 0; t < nt; t++)
+                        if (t != p && ls[q]->lastr[t] >= 0 && nc < (int)(sizeof cands / sizeof cands[0])) cands[nc++] = ls[q]->lastr[t];
+            }
+            for (int t = 0; t < nt; t++)
+                if (t != p && last_unknown[t] >= 0 && nc < (int)(sizeof cands / sizeof cands[0])) cands[nc++] = last_unknown[t];
+        } else if (e.kind == PK_UNKNOWN) {
+            for (int t = 0; t < nt; t++)
+                if (t != p && last_any[t] >= 0) cands[nc++] = last_any[t];
+        }
+        for (int c = 0; c < nc; c++) {
+            int i = cands[c];
+            int q = g_tl[i].tid;
+            if (q == p) continue;
+            bool hb = clk[(size_t)i * VS_MAX_THREADS + q] <= vc[p][q];
+            if (!hb && g_tl[i].pos >= 0 && g_tl[i].pos < (int)path.size()) {
+                PNode& nd = path[g_tl[i].pos];
+                if (nd.en & (1u << p)) nd.backtrack |= 1u << p;
+                else nd.backtrack |= nd.en;
+            }
+        }
+        for (int c = 0; c < nc; c++) {
+            int i = cands[c];
+            for (int t = 0; t < nt; t++) {
+                Clk v = clk[(size_t)i * VS_MAX_THREADS + t];
+                if (v > vc[p][t]) vc[p][t] = v;
+            }
+        }
+        vc[p][p]++;
+        for (int t = 0; t < nt; t++) clk[(size_t)j * VS_MAX_THREADS + t] = vc[p][t];
+        if (e.kind == PK_WRITE) for (int q = 0; q < nl; q++) { ls[q]->lastw = j; for (int t = 0; t < nt; t++) ls[q]->lastr[t] = -1; }
+        if (e.kind == PK_READ) for (int q = 0; q < nl; q++) ls[q]->lastr[p] = j;
+        if (e.kind == PK_UNKNOWN) last_unknown[p] = j;
+        if (e.kind != PK_NONE) last_any[p] = j;
+    }
+}
+
+static bool explore_por(int scenario, int mode, long max_exec, double deadline, long horizon, std::set<unsigned long long>& outcomes) {
+    std::vector<PNode> path;
+    for (;;) {
+        S->prefix_len = (int)path.size();
+        for (size_t i = 0; i < path.size(); i++) { S->prefix[i] = (unsigned char)path[i].chosen; S->done_mask[i] = (unsigned char)path[i].done; }
+        S->forced = 1;
+        S->horizon = horizon;
+        int r = run_execution(scenario);
+        S->executions++;
+        S->transitions += S->points;
+        int n = S->trace_len;
+        S->decisions += n;
+        if (n < (int)path.size()) { S->violation = 1; snprintf(S->vkind, sizeof S->vkind, "internal: execution shorter than its prefix"); _exit(3); }
+        S->nodes += n - (int)path.size() + 1;
+        if (r == RES_SLEEPBLOCKED) S->blocked++;
+        else if (r != RES_OK) {
+            S->violation = 1;
+            snprintf(S->vkind, sizeof S->vkind, "%s", result_name(r));
+            _exit(3);
+        }
+        if (r == RES_OK && outcomes.insert(S->outcome_hash).second) {
+            S->distinct_outcomes = (int)outcomes.size();
+            S->outcomes_sum += S->outcome_hash;
+            if (S->nsamples < 3) { strncpy(S->samples[S->nsamples], S->obs, 1023); S->samples[S->nsamples][1023] = 0; S->nsamples++; }
+        }
+        for (int i = (int)path.size(); i < n; i++) {
+            PNode nd;
+            nd.en = S->en_mask[i]; nd.z = S->z_mask[i]; nd.chosen = S->chosen_tid[i];
+            nd.done = 1u << nd.chosen;
+            nd.backtrack = mode == 1 ? (nd.en & ~nd.z) : (1u << nd.chosen);
+            if (S->had_invariant) nd.backtrack = nd.en & ~nd.z;
+            path.push_back(nd);
+        }
+        // a step invariant observes every intermediate global state: race-driven backtracking explores one interleaving per
+        // partial order and would skip some of those states, sleep sets alone visit every reachable state
+        if (S->had_invariant && mode == 2) { mode = 1; S->use_sleep = 1; for (auto& nd : path) nd.backtrack = nd.en & ~nd.z; }
+        if (mode == 2) process_races(path);
+        while (!path.empty()) {
+            PNode& nd = path.back();
+            unsigned cand = nd.backtrack & ~nd.done & ~nd.z;
+            if (cand) {
+                int t = __builtin_ctz(cand);
+                nd.chosen = t;
+                nd.done |= 1u << t;
+                break;
+            }
+            path.pop_back();
+        }
+        if (path.empty()) return true;
+        if ((max_exec > 0 && S->executions >= max_exec) || (deadline > 0 && now() > deadline)) return false;
+    }
+}
+
 static void merge_conflicts() {
     for (int i = 0; i < NCONF; i++)
         if (S->Dnew[i]) add_set(S->D, S->Dnew[i], &S->d_count);
@@ -803,12 +1061,18 @@ static void explorer_process(int scenario, int bound, long max_exec, double budg
     g_debug = getenv("VSCHED_DEBUG") != nullptr;
     for (int pass = 0; pass < 8; pass++) {
         S->passes = pass + 1;
-        S->executions = S->transitions = S->decisions = S->nodes = 0;
+        S->executions = S->transitions = S->decisions = S->nodes = S->blocked = 0;
         S->bound_completed = -1;
         S->distinct_outcomes = 0;
+        S->outcomes_sum = 0;
         S->nsamples = 0;
         std::set<unsigned long long> outcomes;
         bool complete = true;
+        if (S->use_sleep) {
+            S->bound_running = 1000000;
+            complete = explore_por(scenario, S->use_sleep, max_exec, deadline, horizon, outcomes);
+            if (complete) S->bound_completed = 1000000;
+        } else
         for (int b = 0; b <= bound && complete; b++) {
             S->bound_running = b;
             complete = explore_bound(scenario, b, max_exec, deadline, horizon, outcomes);
@@ -880,7 +1144,7 @@ int main(int argc, char** argv) {
         if (p == MAP_FAILED) { perror("mmap arenas"); return 2; }
         for (int a = 0; a <= VS_MAX_THREADS; a++) g_arena[a] = (char*)p + (size_t)a * ARENA_SIZE;
     }
-    int from = -1, to = -1, bound = 2, dpoints = 1;
+    int from = -1, to = -1, bound = 2, dpoints = 1, use_sleep = 0;
     long max_exec = 0, horizon = 20000;
     double budget = 0;
     const char* replay = nullptr;
@@ -898,6 +1162,7 @@ int main(int argc, char** argv) {
         else if (a == "--budget" && i + 1 < argc) budget = atof(argv[++i]);
         else if (a == "--horizon" && i + 1 < argc) horizon = atol(argv[++i]);
         else if (a == "--dpoints" && i + 1 < argc) dpoints = atoi(argv[++i]);
+        else if (a == "--sleep" && i + 1 < argc) use_sleep = atoi(argv[++i]);
         else if (a == "--replay" && i + 1 < argc) { from = atoi(argv[++i]); to = from + 1; }
         else if (a == "--schedule" && i + 1 < argc) replay = argv[++i];
         else if (a == "--conflicts" && i + 1 < argc) conflicts = argv[++i];
@@ -915,6 +1180,7 @@ int main(int argc, char** argv) {
     if (replay) {
         memset(S, 0, sizeof(Shared));
         S->use_dpoints = dpoints;
+        S->use_sleep = use_sleep;
         if (conflicts) for (unsigned long a : parse_ulist(conflicts)) add_set(S->D, (uintptr_t)a, &S->d_count);
         std::vector<unsigned char> sched;
         for (unsigned long x : parse_ulist(replay)) sched.push_back((unsigned char)x);
@@ -945,6 +1211,7 @@ int main(int argc, char** argv) {
         double t0 = now();
         memset(S, 0, sizeof(Shared));
         S->use_dpoints = dpoints;
+        S->use_sleep = use_sleep;
         pid_t pid = fork();
         if (pid == 0) {
             alarm(budget > 0 ? (unsigned)(budget * 3 + 120) : 3600);
@@ -968,8 +1235,8 @@ int main(int argc, char** argv) {
             return 2;
         }
         printf("{\"scenario\": %d, \"desc\": \"%s\", \"bound_requested\": %d, \"bound_completed\": %d, \"executions\": %ld, \"transitions\": %ld, \"decisions\": %ld, "
-               "\"nodes\": %ld, \"distinct_outcomes\": %d, \"passes\": %d, \"conflict_locations\": %d, \"capped\": %s, \"secs\": %.2f, \"samples\": [",
-               s, json_escape(vs_describe(s)).c_str(), bound, S->bound_completed, S->executions, S->transitions, S->decisions, S->nodes, S->distinct_outcomes,
+               "\"nodes\": %ld, \"sleep_sets\": %d, \"sleep_blocked\": %ld, \"distinct_outcomes\": %d, \"outcomes_fp\": \"%llx\", \"passes\": %d, \"conflict_locations\": %d, \"capped\": %s, \"secs\": %.2f, \"samples\": [",
+               s, json_escape(vs_describe(s)).c_str(), bound, S->bound_completed, S->executions, S->transitions, S->decisions, S->nodes, S->use_sleep, S->blocked, S->distinct_outcomes, S->outcomes_sum,
                S->passes, S->d_count, S->capped ? "true" : "false", now() - t0);
         for (int i = 0; i < S->nsamples; i++) printf("%s\"%s\"", i ? ", " : "", json_escape(S->samples[i]).c_str());
         printf("], \"violation\": ");
@@ -979,7 +1246,7 @@ int main(int argc, char** argv) {
             // the schedule that was running: replayed prefix followed by the choices recorded so far
             int n = S->trace_len;
             std::vector<unsigned char> sched(S->chosen, S->chosen + n);
-            if (n < S->prefix_len) { sched.assign(S->prefix, S->prefix + S->prefix_len); }
+            if (n < S->prefix_len && !use_sleep) { sched.assign(S->prefix, S->prefix + S->prefix_len); }
             print_list("schedule", sched.data(), (int)sched.size());
             printf(", ");
             print_list("threads", S->chosen_tid, n);
